@@ -156,14 +156,20 @@ def _call_frame(m, x, y, a):
     if m == "filter": return x.filter(np.array([rnd.random() < 0.6 for _ in range(n)], dtype=bool))
     if m == "filter_out": return x.filter_out(lambda d: np.array([i % 2 == a % 2 for i in range(d.nrow)], dtype=bool))
     if m == "filter_kv": return x.filter(**{first: x[first][0]}) if n else x.filter(np.array([], dtype=bool))
-    if m == "slice": return x.slice(rows=[i for i in range(n) if (i + a) % 2 == 0], cols=None if a % 3 else list(range(len(names)))[::-1])
-    if m == "slice_off": return x.slice_off(rows=[a % n] if n else [], cols=[0] if (a % 2 and len(names) > 1) else None)
-    if m == "head": return x.head(a)
-    if m == "tail": return x.tail(a)
+    if m == "slice":
+        if a == 7: return x.slice()
+        if a == 6: return x.slice(cols=list(range(len(names)))[::-1])
+        return x.slice(rows=[i for i in range(n) if (i + a) % 2 == 0], cols=None if a % 3 else list(range(len(names)))[::-1])
+    if m == "slice_off":
+        if a == 7: return x.slice_off()
+        if a == 6: return x.slice_off(cols=[0] if len(names) > 1 else None)
+        return x.slice_off(rows=[a % n] if n else [], cols=[0] if (a % 2 and len(names) > 1) else None)
+    if m == "head": return x.head(a) if a < 6 else x.head()
+    if m == "tail": return x.tail(a) if a < 6 else x.tail()
     if m == "drop_na": return x.drop_na(*names[:1 + a % 2])
     if m == "sample":
         np.random.seed(a)
-        return x.sample(max(1, a))
+        return x.sample(max(1, a)) if a < 6 else x.sample()
     if m == "unique": return x.unique(*names[:a % 3])
     if m == "sort": return x.sort(**{c: 1 for c in names[:1 + a % 2]})
     if m == "sort_desc": return x.sort(**{c: -1 for c in names[:1 + a % 2]})
@@ -173,8 +179,9 @@ def _call_frame(m, x, y, a):
     if m == "modify": return x.modify(new=x[first], **({first: x[first]} if a % 2 else {})) if first else x.modify()
     if m == "modify_callable": return x.modify(new=lambda d: d[first]) if first else x.modify()
     if m == "modify_grouped":
+        prev = x._group_colnames
         out = x.group_by(first).modify(gn=lambda d: d.nrow)
-        x._group_colnames = ()
+        x._group_colnames = prev
         return out
     if m == "cbind": return x.cbind(y)
     if m == "rbind": return x.rbind(y)
@@ -182,12 +189,14 @@ def _call_frame(m, x, y, a):
     if m in ("left_join", "inner_join", "semi_join", "anti_join", "full_join"): return getattr(x, m)(y, *by)
     if m == "count": return x.count(first)
     if m == "aggregate":
+        prev = x._group_colnames
         out = x.group_by(first).aggregate(n=di.count(), f=di.first(names[-1]))
-        x._group_colnames = ()
+        x._group_colnames = prev
         return out
     if m == "aggregate_lambda":
+        prev = x._group_colnames
         out = x.group_by(first).aggregate(v=lambda d: d[names[-1]][0] if d.nrow else None)
-        x._group_colnames = ()
+        x._group_colnames = prev
         return out
     if m == "split": return x.split(first)
     if m == "map": return x.map(lambda d, i: d[first][i])
@@ -223,7 +232,8 @@ def _check_frame(plan, ctx):
             with np.errstate(all="ignore"):
                 res = _call_frame(m, x, y, c["a"])
         except Exception as e:
-            x._group_colnames = () if m in ("modify_grouped", "aggregate", "aggregate_lambda") else x._group_colnames
+            if m in ("modify_grouped", "aggregate", "aggregate_lambda"):
+                x._group_colnames = snaps[0][2]
             if [build.snap_frame(o) for o in operands] != snaps:
                 raise Violation(f"{m} raised and left an operand changed", call=no, exc=f"{type(e).__name__}: {e}"[:200])
             ctx.reject(f"{m} raises on these operands: {type(e).__name__}")
@@ -232,9 +242,14 @@ def _check_frame(plan, ctx):
         if m == "group_by":
             if res is not x or tuple(x._group_colnames) == ():
                 raise Violation("group_by is documented to mark and return the receiver")
-            x._group_colnames = ()
+            marked = tuple(x._group_colnames)
+            x._group_colnames = snaps[0][2]
             if build.snap_frame(x) != snaps[0]:
                 raise Violation("group_by changed more than the grouping of its receiver")
+            if c["a"] % 2:
+                # leave the receiver grouped: later calls on it must not disturb the grouping either
+                x._group_colnames = marked
+                ctx.cls("receiver_left_grouped")
             continue
         after = [build.snap_frame(o) for o in operands]
         if after != snaps:
